@@ -161,6 +161,9 @@ Definition init_state : state := {| cur := no_hashes; store := None |}.
 
 Inductive op :=
 | OSet (u : user) (pw : string)   (* attr_set_password(which, value) *)
+| OSetRefused (u : user) (pw : string)
+                                  (* attr_set_password when settings.core.passwords.set_cmd fails for this password: the
+                                     command runs BEFORE the hash is assigned, the exception leaves everything as it was *)
 | OSave                           (* core.device.save() *)
 | OLoad                           (* core.device.load() *)
 | OReset (keep : bool)            (* core.device.reset(preserve_attrs = the three hashes / nothing) *)
@@ -190,6 +193,7 @@ Section Passwords.
   Definition step (st : state) (o : op) : state :=
     match o with
     | OSet u pw => {| cur := set_hash (cur st) u (Some (sha256hex pw)); store := store st |}
+    | OSetRefused _ _ => st
     | OSave => {| cur := cur st; store := Some (cur st) |}
     | OLoad => load st
     | OReset keep => {| cur := if keep then cur st else no_hashes; store := None |}
@@ -209,7 +213,26 @@ Section Passwords.
   Definition device_json (others : list (string * jval)) (st : state) : list (string * jval) :=
     (others ++ [("admin_password", JStr (pw_bit st Admin)); ("normal_password", JStr (pw_bit st Normal));
                 ("viewonly_password", JStr (pw_bit st Viewonly))])%list.
+
+  (* ------------------------------------------------------------------------------------------------------------ *)
+  (* the hub's credential for one slave (slaves/devices.py): Slave._admin_password_hash starts as sha256(admin_password
+     given when the slave is added); Slave.intercept_response replaces it after every SUCCESSFUL forwarded
+     PATCH /device whose body has an admin_password that `is not None` - the empty password included *)
+  Definition track (h : string) (body_pw : option string) : string :=
+    match body_pw with Some p => sha256hex p | None => h end.
+
+  Definition hub_slave_hash (pw0 : string) (sops : list (option string)) : string :=
+    fold_left track sops (sha256hex pw0).
 End Passwords.
+
+(* what GET /devices (Slave.to_json) and an intercepted GET .../forward/device show for a password attribute of a slave:
+   the slave's own "set"/"" answer, or - while a new password waits to be provisioned to an offline slave - the same bit
+   of the pending value (after fixes/C10-mask-pending-slave-passwords.diff; the code before it is in History/C10Old.v) *)
+Definition slave_doc_pw (pending : option string) (slave_bit : string) : string :=
+  match pending with
+  | Some p => if (p =? "")%string then "" else "set"
+  | None => slave_bit
+  end.
 
 (* ---------------------------------------------------------------------------------------------------------------- *)
 (* python's int() on a claim value, as far as _validate_iat/_nbf/_exp can tell *)
